@@ -172,6 +172,13 @@ def exchange_flows(ctx, rng, n):
                         body["requested_token_type"] = TT + rng.choice(["access_token", "refresh_token", "refresh_token"])
                     if other != client and rng.random() < 0.7:
                         body["audience"] = other
+                    if i < 8 and step == 0 and not use_refresh:
+                        # the first flows are fixed in shape: another client exchanges the access token for a refresh token
+                        # (all of the subject token's scope), which is then refreshed with and without a narrower scope
+                        other = [c for c in sess.CLIENTS if c != client][i % 2]
+                        body = {"grant_type": TE, "subject_token": stok.value, "subject_token_type": TT + "access_token",
+                                "requested_token_type": TT + "refresh_token", "audience": other}
+                        want = []
                     tokens_before = list(rs.tokobj)
                     resp, err = token_call(rs, other, body)
                     rs.find_new_grants()
@@ -220,6 +227,18 @@ def exchange_flows(ctx, rng, n):
                                 ctx.count("exchange-refresh:" + ("ok" if r2 else "refused"))
                                 if r2:
                                     g2 = set(scope_of(r2))
+                                    at2 = r2.get("access_token")
+                                    if isinstance(at2, str) and at2.count(".") == 2:
+                                        # what the JWT says about itself is what the response states and the session records
+                                        pl2 = json.loads(base64.urlsafe_b64decode(at2.split(".")[1] + "=="))
+                                        js2 = pl2.get("scope", [])
+                                        js2 = js2.split(" ") if isinstance(js2, str) else js2
+                                        if set(js2) != g2:
+                                            ctx.violation("view-jwt", "access token minted by refreshing an exchanged refresh token: JWT scope %r vs response %r"
+                                                          % (sorted(js2), sorted(g2)), hist)
+                                        tk2 = next((t for t in rs.tokobj if t.value == at2), None)
+                                        if tk2 is not None and set(tk2.scope) != g2:
+                                            ctx.violation("view-response-vs-token", "refresh response scope %r, token scope %r" % (sorted(g2), tk2.scope), hist)
                                     if g2 - set(stok.scope):
                                         ctx.violation("exchange-refresh-widened", "refreshing an exchanged refresh token returned %r beyond the subject token's %r"
                                                       % (sorted(g2), list(stok.scope)), hist)
@@ -297,7 +316,7 @@ def run(ctx):
         return [ScopeOracle(ctx)]
     n = 30 if ctx.quick else 1200
     common.run_histories(ctx, n, (15, 50), factory, structured=structured())
-    exchange_flows(ctx, ctx.rng, 12 if ctx.quick else 400)
+    exchange_flows(ctx, ctx.rng, 16 if ctx.quick else 400)
     client_credentials_flows(ctx, ctx.rng, 8 if ctx.quick else 200)
     jwt_histories(ctx, ctx.rng, 6 if ctx.quick else 200)
     imp = ["Lib.Base", "Lib.PyStr", "Model.ScopeFlows"]
